@@ -171,7 +171,8 @@ StepClauses(pre, ev, o, out, f, g2) ==
   \cup If(mut /\ exp /\ ~ok /\ o.op # "set", "conf:unexpected_refusal")
   \* "adding a block whose type is already present is refused with ValueError" - whatever else is
   \* wrong with the request or the table (the permission checks come first: nocontext, readonly)
-  \cup If(mut /\ ~ok /\ o.op = "add" /\ "duplicate" \in out.causes /\ out.causes \cap {"nocontext", "readonly"} = {}
+  \* (and unless what is added is not a block of that type to begin with: "badblock")
+  \cup If(mut /\ ~ok /\ o.op = "add" /\ "duplicate" \in out.causes /\ out.causes \cap {"nocontext", "readonly", "badblock"} = {}
             /\ ~HasMro(ev, "ValueError"), "C11:dup_not_valueerror")
   \cup If(mut /\ ~ok /\ out.causes # {} /\ out.causes \subseteq {"duplicate", "full"} /\ ~HasMro(ev, "ValueError"), "conf:full_not_valueerror")
   \cup If(mut /\ ~ok /\ out.causes # {} /\ out.causes \subseteq {"badblock", "badcomment"}
